@@ -3,7 +3,7 @@
    dim_info / axis codes "x,y,_" (_ = None); shapes "[a,b,c]"; index tuples as in C06:
    i<k> | s<a>:<b>:<c> (_ = None) | n | e, "()" = empty.
    reorient <nifti> <shape> <ornt> <affine> <dim> | slicer <shape> <ix> <affine> <dim>
-   slaff <shape> <ix> <affine> | hyp <shape> <ix> | invaff <ornt> <shape> | otrans <o1> <o2>
+   fslc <filehex> <shape> <itemsize> <offset> <ix> | slaff <shape> <ix> <affine> | hyp <shape> <ix> | invaff <ornt> <shape> | otrans <o1> <o2>
    ops <nifti> <shape> <affine> <dim> <op;op;...> (op = S=<ix> | R=<ornt>) | ocomp <o1> <o2> | o2c <orows> | c2o <codes> | ioloop <atol> <R> <p> *)
 let optz s = if s = "_" then None else Some (z_of_string s)
 let str_optz = function None -> "_" | Some v -> string_of_z v
@@ -56,6 +56,9 @@ let handle op args = match op, args with
                                      ^ " srcs=" ^ string_of_zlist srcs)
       (run_csequence (bool_of_string nif) (zlist_of_string shape) (parse_mat aff) (parse_opts dim)
          (List.map parse_op (split ';' ops)))
+  | "fslc", [file; shape; w; off; ix] ->
+    res (fun (sh, b) -> string_of_zlist sh ^ " " ^ hex_of_bytes b)
+      (run_file_slicer (bytes_of_hex file) (zlist_of_string shape) (z_of_string w) (z_of_string off) (parse_ix ix))
   | "slaff", [shape; ix; aff] ->
     res str_mat (slice_affine (parse_mat aff) (zlist_of_string shape) (parse_ix ix))
   | "hyp", [shape; ix] ->
